@@ -9,10 +9,12 @@ use std::io::{Read, Write};
 use std::net::{TcpListener, TcpStream};
 use std::sync::atomic::Ordering;
 
-struct Gen { left: u64 }
+struct Gen { left: u64, piece: usize }
 impl Read for Gen {
     fn read(&mut self, buf: &mut [u8]) -> std::io::Result<usize> {
-        let n = (buf.len() as u64).min(self.left) as usize;
+        // `piece` > 0: a source that hands out at most that many bytes per read (a socket, a pipe, a decompressor)
+        let cap = if self.piece > 0 { buf.len().min(self.piece) } else { buf.len() };
+        let n = (cap as u64).min(self.left) as usize;
         for b in &mut buf[..n] { *b = b'x'; }
         self.left -= n as u64;
         Ok(n)
@@ -24,7 +26,9 @@ pub fn mem(arg: &str) -> String {
     let mut framing = "auto";
     let mut n: u64 = 1024;
     let mut ver = "1.1";
+    let mut piece = 0usize;
     for w in arg.split_whitespace() {
+        if let Some(v) = w.strip_prefix("piece=") { piece = v.parse().unwrap_or(0) }
         if let Some(v) = w.strip_prefix("ver=") { ver = if v == "0" { "1.0" } else { "1.1" } }
         if let Some(v) = w.strip_prefix("dir=") { dir = v }
         if let Some(v) = w.strip_prefix("framing=") { framing = v }
@@ -46,15 +50,16 @@ pub fn mem(arg: &str) -> String {
     // request direction, body NOT read by the handler: discarded by the drop-drain
     b.route(Method::Post, "/ignore", |_ctx, res| res.ok(Headers::empty_nodate(), "ignored"));
     // response direction: the body comes from a reader
-    b.route(Method::Get, "/gen/:framing/:n", |ctx, res| {
+    b.route(Method::Get, "/gen/:framing/:n/:piece", |ctx, res| {
         let n: u64 = ctx.params.get("n").and_then(|s| s.parse().ok()).unwrap_or(0);
+        let piece: usize = ctx.params.get("piece").and_then(|s| s.parse().ok()).unwrap_or(0);
         let mut h = Headers::new_nodate();
         match ctx.params.get("framing") {
             Some("cl") => h.set_content_length(Some(n)),
             Some("chunked") => h.set_transfer_encoding_chunked(),
             _ => {}
         }
-        res.okr(&h, Gen { left: n })
+        res.okr(&h, Gen { left: n, piece })
     });
     let server = b.build();
     let listener = TcpListener::bind("127.0.0.1:0").unwrap();
@@ -63,7 +68,7 @@ pub fn mem(arg: &str) -> String {
     let (srv, _) = listener.accept().unwrap();
     // warm up thread-locals / lazies with a tiny exchange so that one-off allocations are not attributed to the transfer
     let th = std::thread::spawn(move || { let _ = server.handle(&srv); drop(srv); });
-    client.write_all(b"GET /gen/cl/1 HTTP/1.1\r\n\r\n").unwrap();
+    client.write_all(b"GET /gen/cl/1/0 HTTP/1.1\r\n\r\n").unwrap();
     let mut tmp = vec![0u8; 65536];
     let mut got = 0usize;
     while got < 39 { match client.read(&mut tmp) { Ok(0) | Err(_) => break, Ok(k) => got += k } }
@@ -113,7 +118,7 @@ pub fn mem(arg: &str) -> String {
                 // (the handler answered before the body was discarded: give the drain time to finish, the chunked reader's
                 // read-ahead must not see the probe — known finding K07)
                 std::thread::sleep(std::time::Duration::from_millis(if framing == "chunked" { 150 } else { 0 }));
-                let _ = client.write_all(b"GET /gen/cl/1 HTTP/1.1\r\n\r\n");
+                let _ = client.write_all(b"GET /gen/cl/1/0 HTTP/1.1\r\n\r\n");
                 let mut g = 0usize;
                 let mut small = [0u8; 256];
                 while g < 39 { match client.read(&mut small) { Ok(0) | Err(_) => break, Ok(k) => g += k } }
@@ -122,7 +127,7 @@ pub fn mem(arg: &str) -> String {
             seen = n;
         }
     } else {
-        let req = format!("GET /gen/{}/{} HTTP/{}\r\n\r\n", framing, n, ver);
+        let req = format!("GET /gen/{}/{}/{} HTTP/{}\r\n\r\n", framing, n, piece, ver);
         client.write_all(req.as_bytes()).unwrap();
         client.set_read_timeout(Some(std::time::Duration::from_secs(20))).ok();
         // count 'x' bytes after the head (chunk framing bytes are not 'x'); allocation-free on the client side
